@@ -57,14 +57,19 @@ func (o goArrayObject) getValueIndex(index int64) (reflect.Value, bool) {
 	return reflect.Value{}, false
 }
 
-func (o goArrayObject) setValue(index int64, value Value) bool {
+func (o goArrayObject) setValue(rt *runtime, index int64, value Value) bool {
 	indexValue, exists := o.getValueIndex(index)
-	if !exists {
+	if !exists || !indexValue.CanSet() {
 		return false
 	}
-	reflectValue, err := value.toReflectValue(reflect.Indirect(o.value).Type().Elem())
+	elemType := reflect.Indirect(o.value).Type().Elem()
+	reflectValue, err := value.toReflectValue(elemType)
 	if err != nil {
-		panic(err)
+		panic(rt.panicConversionError(err))
+	}
+	if !reflectValue.IsValid() {
+		// undefined / null for an element type that has no such value.
+		reflectValue = reflect.Zero(elemType)
 	}
 	indexValue.Set(reflectValue)
 	return true
@@ -122,8 +127,9 @@ func goArrayDefineOwnProperty(obj *object, name string, descriptor property, thr
 		return obj.runtime.typeErrorResult(throw)
 	} else if index := stringToArrayIndex(name); index >= 0 {
 		goObj := obj.value.(*goArrayObject)
-		if goObj.writable {
-			if obj.value.(*goArrayObject).setValue(index, descriptor.value.(Value)) {
+		// Only a value can be stored: no accessors, no attribute changes.
+		if value, ok := descriptor.value.(Value); ok && goObj.writable {
+			if goObj.setValue(obj.runtime, index, value) {
 				return true
 			}
 		}
@@ -144,7 +150,7 @@ func goArrayDelete(obj *object, name string, throw bool) bool {
 		goObj := obj.value.(*goArrayObject)
 		if goObj.writable {
 			indexValue, exists := goObj.getValueIndex(index)
-			if exists {
+			if exists && indexValue.CanSet() {
 				indexValue.Set(reflect.Zero(reflect.Indirect(goObj.value).Type().Elem()))
 				return true
 			}
